@@ -14,6 +14,7 @@ import (
 	"os"
 	"path/filepath"
 	"runtime"
+	"runtime/coverage"
 	"runtime/debug"
 	"sort"
 	"strconv"
@@ -396,6 +397,16 @@ func (r *Run) Mine(i int) bool { return r.NShards <= 1 || i%r.NShards == r.Shard
 func (r *Run) Finish() {
 	r.mu.Lock()
 	defer r.mu.Unlock()
+	if dir := os.Getenv("GOCOVERDIR"); dir != "" {
+		// analysis builds only (./covgap): package main is not among the instrumented packages, so the
+		// counters are written explicitly; both calls fail harmlessly in an ordinary build
+		if err := coverage.WriteMetaDir(dir); err != nil {
+			fmt.Fprintln(os.Stderr, "mon: coverage meta:", err)
+		}
+		if err := coverage.WriteCountersDir(dir); err != nil {
+			fmt.Fprintln(os.Stderr, "mon: coverage counters:", err)
+		}
+	}
 	d := make([]string, 0, len(r.distinct))
 	for k := range r.distinct {
 		d = append(d, strconv.FormatUint(k, 36))
